@@ -14,14 +14,16 @@ from .. import core, driver, rt
 from ..gen import corpus
 
 RULE = ("enumerated: every corpus instruction form whose numeric operand can be replaced by a label (all CPUs with a "
-        "tests/comparison file) x {forward, backward reference} x label value class {0x10, 0x1230, 0x12340} x {-optimize "
+        "tests/comparison file) x {forward, backward reference} x label value class {0x0, 0x10, 0x1230, 0x9000, 0x12340} plus forward references to a label at address 0 x {-optimize "
         "on, off}: one program per combination with labels placed directly after the instructions under test, each label "
         "followed by a unique marker; quick = seeded sample of the forms, thorough = all; plus seeded programs mixing "
         "several forms of one CPU. distinct_nontrivial = distinct (cpu, mnemonic, operand shape, direction, value class) "
         "with an accepted program whose labels were all checked.")
 
-BASES = [0x10, 0x1230, 0x12340]
-CONFIGS = [(d, b, o) for d in ("fwd", "back") for b in BASES for o in (0, 1)]
+BASES = [0x10, 0x1230, 0x12340, 0x0, 0x9000]
+# "fwdlow": the label is defined later in the source but at address 0 (`.org 0` after the code), i.e. a forward
+# reference whose final value would select the shortest operand form
+CONFIGS = [(d, b, o) for d in ("fwd", "back") for b in BASES for o in (0, 1)] + [("fwdlow", 0x1230, o) for o in (0, 1)]
 
 
 def iid(cpu, line, k, d, b, o):
@@ -55,7 +57,9 @@ def build_program(cpu, bpa, uses, direction, base, case_no):
         src.append("  .dc64 0x%x" % marker(case_no * 64 + n))
         labels.append((name, marker(case_no * 64 + n)))
         n += 1
-    if direction == "fwd":
+    if direction == "fwdlow":
+        src.append(".org 0")
+    if direction in ("fwd", "fwdlow"):
         src.append("  .align_bytes 16")
         src.append("tgt:")
         src.append("  .dc64 0x%x" % marker(case_no * 64 + n))
